@@ -424,3 +424,163 @@ def oracleC15 (o : Opts) (env : Env) (inN outN : Node) : Verdict :=
     else .ok
 
 end VueJsx
+
+/-! ### C20: only Vue's defineComponent is augmented, and the user's options always win -/
+namespace VueJsx
+
+/-- binding classes of identifiers that are Vue's defineComponent imported by name from 'vue' -/
+def vueDefineBinds (inN : Node) : List String :=
+  (collect (isKind .importDecl) inN).flatMap fun d =>
+    match d with
+    | .mk .importDecl _ (.mk .list _ specs :: .mk .str ("vue" :: _) _ :: _) =>
+      specs.filterMap fun s =>
+        match s with
+        | .mk .importSpec _ [.mk .ident (ln :: b :: _) _, imp] =>
+          let importedName := match imp with | .mk .ident (n :: _) _ => n | .mk .str (n :: _) _ => n | _ => ln
+          if importedName == "defineComponent" then some b else none
+        | _ => none
+    | _ => []
+
+/-- a call with the user calls nested in it blanked out: "did THIS call change?" -/
+partial def blankNestedCalls (n : Node) : Node :=
+  match n with
+  | .mk .call ("usr" :: _) _ => S "call" [] []
+  | .mk k as ks => .mk k as (ks.map blankNestedCalls)
+
+def shallowCallEq (ci co : Node) : Bool :=
+  match ci, co with
+  | .mk .call a1 k1, .mk .call a2 k2 => a1 == a2 && canon (nList (k1.map blankNestedCalls)) == canon (nList (k2.map blankNestedCalls))
+  | _, _ => false
+
+/- simultaneous walk of input and output: pairs every user-written call of the input with the call at the same
+   position of the output (with the declared name when it initialises `const x = call`) -/
+mutual
+partial def pairCalls (i o : Node) (declName : Option String) : List (Option String × Node × Node) :=
+  match i, o with
+  | .mk .declarator _ [.mk .ident (nm :: _) ik, ii], .mk .declarator _ [_, oi] =>
+    pairCallsL ik [] ++ pairCalls ii oi (some nm)
+  | .mk .call ("usr" :: _) [ic, .mk .list _ iargs, _], .mk .call ("usr" :: _) [oc, .mk .list _ oargs, _] =>
+    let head := [(declName, i, o)]
+    let nested := pairCalls ic oc none ++
+      (if iargs.length == oargs.length then pairCallsL iargs oargs
+       else pairCallsL (iargs.take 1) (oargs.take 1) ++ pairCallsL (iargs.drop 2) (oargs.drop 2))
+    head ++ nested
+  | .mk k1 _ c1, .mk k2 _ c2 =>
+    if k1 == k2 && c1.length == c2.length then pairCallsL c1 c2 else []
+partial def pairCallsL (xs ys : List Node) : List (Option String × Node × Node) :=
+  match xs, ys with
+  | x :: xs, y :: ys => pairCalls x y none ++ pairCallsL xs ys
+  | _, _ => []
+end
+
+/-- operations of an options object literal, spreads of object literals expanded -/
+partial def flattenOptions (e : Node) : List PropOp :=
+  match e with
+  | .mk .object _ [.mk .list _ props] =>
+    props.flatMap fun p =>
+      match p with
+      | .mk .kv _ [.mk .computed _ [.mk .str (k :: _) _], v] => [.set k v]
+      | .mk .kv _ [.mk .computed _ [k], v] => [.setC k v]
+      | .mk .kv _ [k, v] => (match staticKeyOf k with | some s => [.set s v] | none => [.setC k v])
+      | .mk .ident (n :: r) ks => [.set n (.mk .ident (n :: r) ks)]
+      | .mk .methodProp _ (k :: _) => (match (match k with | .mk .computed _ [.mk .str (s :: _) _] => some s | k => staticKeyOf k) with
+          | some s => [.set s p] | none => [.spreadPlain p])
+      | .mk .getterProp _ (k :: _) => (match staticKeyOf k with | some s => [.set s p] | none => [.spreadPlain p])
+      | .mk .spreadElement _ [x] =>
+        (match x with
+         | .mk .object _ _ => flattenOptions x
+         | x => [.spreadPlain x])
+      | o => [.spreadPlain o]
+  | e => [.spreadPlain e]
+
+def propOpEq (a b : PropOp) : Bool :=
+  match a, b with
+  | .set k v, .set k' v' => k == k' && canon v == canon v'
+  | .setC k v, .setC k' v' => canon k == canon k' && canon v == canon v'
+  | .spreadPlain e, .spreadPlain e' => canon e == canon e'
+  | _, _ => false
+
+/-- aligns the output options with the input options; returns the injected entries with the index they sit at and
+    whether a user-written entry that can provide the same key precedes them -/
+partial def alignOptions (outOps inOps : List PropOp) (userBefore : List PropOp) : Except String (List (String × Node × Bool)) :=
+  match outOps, inOps with
+  | [], [] => .ok []
+  | [], _ :: _ => .error "a user-written option entry disappeared"
+  | o :: os, ins =>
+    match ins with
+    | i :: is =>
+      if propOpEq o i then alignOptions os is (userBefore ++ [i])
+      else
+        match o with
+        | .set k v =>
+          if ["props", "emits", "name"].contains k then
+            let overridden := userBefore.any fun u => match u with
+              | .set k' _ => k' == k
+              | .spreadPlain _ => true
+              | _ => false
+            (alignOptions os ins userBefore).map fun rest => (k, v, overridden) :: rest
+          else .error s!"option entry {k} differs from the input"
+        | _ => .error "an option entry differs from the input"
+    | [] =>
+      match o with
+      | .set k v =>
+        if ["props", "emits", "name"].contains k then
+          let overridden := userBefore.any fun u => match u with
+            | .set k' _ => k' == k
+            | .spreadPlain _ => true
+            | _ => false
+          (alignOptions os [] userBefore).map fun rest => (k, v, overridden) :: rest
+        else .error s!"option entry {k} was added"
+      | _ => .error "an option entry was added"
+
+def argsOf (c : Node) : List Node := match c with | .mk .call _ [_, .mk .list _ args, _] => args | _ => []
+def calleeOfCall (c : Node) : Node := (c.kids.head?).getD nNone
+
+def c20Call (o : Opts) (vueBinds : List String) (decl : Option String) (ci co : Node) : Option (String × String) :=
+  if shallowCallEq ci co then none else
+  -- the call was changed: it must be an augmentation that is allowed
+  let gateOk := o.resolveType && (match calleeOfCall ci with
+    | .mk .ident (n :: b :: _) _ => vueBinds.contains b && (n == "defineComponent" || true)
+    | _ => false)
+  if !gateOk then some ("augmented-foreign-call", s!"call of {showN (calleeOfCall ci)} was changed: {showN co}") else
+  let ai := argsOf ci
+  let ao := argsOf co
+  let isSpread (a : Option Node) : Bool := match a with | some (.mk .spreadArg _ _) => true | _ => false
+  if isSpread (ai[0]? : Option Node) || isSpread (ai[1]? : Option Node) then some ("spread-arguments-changed", s!"a spread argument list was changed: {showN co}") else
+  if ao.length < 2 || !(canon (nList (ai.take 1)) == canon (nList (ao.take 1))) || !(canon (nList (ai.drop 2)) == canon (nList (ao.drop 2))) then
+    some ("arguments-changed", s!"arguments other than the options were changed: {showN co}") else
+  let inOps : List PropOp := match (ai[1]? : Option Node) with | some (.mk .arg _ [e]) => flattenOptions e | _ => []
+  match (ao[1]? : Option Node) with
+  | some (.mk .arg _ [.mk .object oas oks]) =>
+    match alignOptions (flattenOptions (.mk .object oas oks)) inOps [] with
+    | .error msg => some ("options-changed", msg ++ ": " ++ showN co)
+    | .ok injected =>
+      match injected.find? (fun x => x.2.2) with
+      | some (k, _, _) => some ("user-option-overridden/" ++ k, s!"the injected `{k}` comes after a user-written entry or spread that can provide it: {showN (.mk .object oas oks)}")
+      | none =>
+        match injected.find? (fun x => x.1 == "name") with
+        | some (_, v, _) =>
+          (match decl, v with
+           | some d, .mk .str (s :: _) _ => if s == d then none else some ("name-value", s!"name {s} for declaration {d}")
+           | none, _ => some ("name-without-declaration", "a name was injected although the call does not initialise a variable declaration")
+           | _, _ => some ("name-value", showN v))
+        | none => none
+  | _ => some ("options-changed", s!"the options argument is not an object literal: {showN co}")
+
+/-- module items of the output without the statements the transform inserted -/
+def stripInserted (out : Node) : Node := post (stripRule (rolesOfModule out)) out
+
+def oracleC20 (o : Opts) (inN outN : Node) : Verdict :=
+  let pairs := pairCalls inN (stripInserted outN) none
+  let nIn := (collect (fun n => match n with | .mk .call ("usr" :: _) _ => true | _ => false) inN).length
+  let binds := vueDefineBinds inN
+  match pairs.findSome? (fun p => c20Call o binds p.1 p.2.1 p.2.2) with
+  | some (k, d) => .fail k d
+  | none =>
+    -- every defineComponent-looking call of the input must have been visited
+    let dcIn := (collect (fun n => match n with | .mk .call ("usr" :: _) (.mk .ident ("defineComponent" :: _) _ :: _) => true | _ => false) inN).length
+    let dcPaired := (pairs.filter fun p => match p.2.1 with | .mk .call _ (.mk .ident ("defineComponent" :: _) _ :: _) => true | _ => false).length
+    let _ := nIn
+    if dcIn != dcPaired then .skip "call-inside-lowered-jsx" else .ok
+
+end VueJsx
